@@ -57,6 +57,8 @@ struct Msg {
     err: Option<String>,
     /// is_end_stream() value seen when the clean end was observed
     ies: Option<bool>,
+    /// delivered side: poll_data returned None (end of the body reported)
+    data_none: bool,
 }
 
 impl Msg {
@@ -66,7 +68,7 @@ impl Msg {
     fn json(&self) -> Value {
         json!({"head": self.head, "infos": self.infos, "len": self.body_len, "digest": self.body_digest.to_string(),
                "pattern_ok": self.pattern_ok, "chunks": self.chunks, "trailers": self.trailers, "end": self.end,
-               "err": self.err, "is_end_stream": self.ies})
+               "err": self.err, "is_end_stream": self.ies, "data_none": self.data_none})
     }
 }
 
@@ -299,6 +301,7 @@ impl RecvHalf {
                     true
                 }
                 Poll::Ready(None) => {
+                    self.got.data_none = true;
                     if self.unreleased > 0 {
                         let _ = st.flow_control().release_capacity(self.unreleased as usize);
                         self.unreleased = 0;
